@@ -991,11 +991,12 @@ def _canonicalize_kak_vector(k_vec: np.ndarray, atol: float) -> np.ndarray:
     k_vec[y_negative, 2] *= -1
 
     # If x = π/4, force z to be positive.
-    x_is_pi_over_4 = np.isclose(k_vec[..., 0], np.pi / 4, atol=atol)
+    x_is_pi_over_4 = np.isclose(k_vec[..., 0], np.pi / 4, atol=atol, rtol=0)
     z_is_negative = k_vec[..., 2] < 0
     need_diff = np.logical_and(x_is_pi_over_4, z_is_negative)
-    # -1 to x and z components, then shift x up by pi/2. Since x is pi/4, we
-    # actually do nothing to that index.
+    # -1 to x and z components, then shift x up by pi/2 (x is within atol of
+    # pi/4, so this moves it by less than 2 * atol).
+    k_vec[need_diff, 0] = np.pi / 2 - k_vec[need_diff, 0]
     k_vec[need_diff, 2] *= -1
 
     return k_vec
